@@ -88,4 +88,33 @@ int w22_keep_mval(const std::vector<int>& keys, std::vector<int>& table) {
     }
     return t;
 }
+// N13 refined stores + copy coalescing: `if (h == 0) x = 0; else { ..; x = h; }` stores h on both edges; h then only feeds x
+int next_count();
+int w23_subst_h(S& s) {
+    int x;
+    const int h = next_count();
+    if (h == 0) { x = 0; } else { s.b = h; x = h; }
+    return x;
+}
+// ... not when the branch reads x before its final store (the store cannot sink, h stays)
+int w24_keep_h(S& s) {
+    int x = 1;
+    const int h = next_count();
+    if (h == 0) { x = 0; } else { s.b = x; x = h; }
+    return x;
+}
+// N14 loop re-switching + branch-end merging: a loop specialised on an invariant test is one loop again (u becomes v)
+int w25_subst_u(S& s, const std::vector<int>& xs) {
+    int t = 0;
+    if (s.a == 0) { for (int u : xs) { t += u; } return t; }
+    for (int v : xs) { t += v; s.b = v; }
+    return t;
+}
+// ... not when the loops can change what the test reads
+int w26_keep_u(S& s, const std::vector<int>& xs) {
+    int t = 0;
+    if (s.b == 0) { for (int u : xs) { t += u; } return t; }
+    for (int v : xs) { t += v; s.b = v; }
+    return t;
+}
 }
